@@ -1,0 +1,157 @@
+//go:build verif
+
+package event
+
+// Verification hooks for property C19 (event feeds).  Add-only, compiled only
+// with `-tags verif`.  verifPoint is called at the synchronisation points of
+// Feed.Subscribe / Feed.remove / Feed.Send.  When a trace has been attached to
+// the feed (VerifAttach) it appends (goroutine id, point, channel id) to that
+// trace and then optionally yields the processor (runtime.Gosched / very short
+// sleeps drawn from a seeded PRNG) to widen the set of interleavings reached.
+// Feeds without an attached trace are unaffected (one sync.Map lookup).
+//
+// Placement rule used in feed.go: a point that *releases* something (sendLock
+// put) is recorded before the release, a point that *acquires* / completes
+// something is recorded after it, points in f.mu sections are recorded inside
+// the section.
+
+import (
+	"reflect"
+	"runtime"
+	"sync"
+	"sync/atomic"
+	"time"
+)
+
+// VerifEvent is one trace record.
+type VerifEvent struct {
+	G     uint64 // goroutine id of the recorder
+	Point string
+	Ch    int // channel id (registered with RegisterChan), -1 if none / unknown
+	Arg   int // harness-level argument (send id, value, nsent ...)
+}
+
+// VerifTrace is the per-feed trace and yield source.
+type VerifTrace struct {
+	mu     sync.Mutex
+	events []VerifEvent
+	chans  map[interface{}]int
+	rng    uint64
+	yield  int // percent of points followed by a yield
+	sleep  int // percent of points followed by a short sleep
+}
+
+var (
+	verifTraces sync.Map // *Feed -> *VerifTrace
+	verifActive int32
+)
+
+// VerifAttach starts recording the synchronisation points of f.
+func VerifAttach(f *Feed, seed uint64, yieldPct, sleepPct int) *VerifTrace {
+	t := &VerifTrace{chans: map[interface{}]int{}, rng: seed*0x9E3779B97F4A7C15 + 1, yield: yieldPct, sleep: sleepPct}
+	verifTraces.Store(f, t)
+	atomic.AddInt32(&verifActive, 1)
+	return t
+}
+
+// VerifDetach stops recording for f and returns the trace.
+func VerifDetach(f *Feed) []VerifEvent {
+	v, ok := verifTraces.Load(f)
+	if !ok {
+		return nil
+	}
+	verifTraces.Delete(f)
+	atomic.AddInt32(&verifActive, -1)
+	t := v.(*VerifTrace)
+	t.mu.Lock()
+	defer t.mu.Unlock()
+	return append([]VerifEvent(nil), t.events...)
+}
+
+// RegisterChan gives the channel value ch (e.g. a chan int) the id used in the trace.
+func (t *VerifTrace) RegisterChan(ch interface{}, id int) {
+	t.mu.Lock()
+	t.chans[ch] = id
+	t.mu.Unlock()
+}
+
+// Record appends a harness-level event (call / return / receive) to the same trace.
+func (t *VerifTrace) Record(point string, ch, arg int) {
+	g := VerifGoid()
+	t.mu.Lock()
+	t.events = append(t.events, VerifEvent{g, point, ch, arg})
+	r := t.next()
+	t.mu.Unlock()
+	t.pause(r)
+}
+
+// Snapshot returns a copy of the events recorded so far (used by the deadlock watchdog).
+func (t *VerifTrace) Snapshot() []VerifEvent {
+	t.mu.Lock()
+	defer t.mu.Unlock()
+	return append([]VerifEvent(nil), t.events...)
+}
+
+func (t *VerifTrace) next() uint64 { // splitmix64, caller holds t.mu
+	t.rng += 0x9E3779B97F4A7C15
+	z := t.rng
+	z = (z ^ (z >> 30)) * 0xBF58476D1CE4E5B9
+	z = (z ^ (z >> 27)) * 0x94D049BB133111EB
+	return z ^ (z >> 31)
+}
+
+func (t *VerifTrace) pause(r uint64) {
+	p := int(r % 100)
+	switch {
+	case p < t.sleep:
+		time.Sleep(time.Duration(1+(r>>8)%40) * time.Microsecond)
+	case p < t.sleep+t.yield:
+		for n := 1 + int((r>>8)%3); n > 0; n-- {
+			runtime.Gosched()
+		}
+	}
+}
+
+// VerifGoid returns the id of the calling goroutine (parsed from runtime.Stack).
+func VerifGoid() uint64 {
+	var buf [40]byte
+	n := runtime.Stack(buf[:], false)
+	// "goroutine 123 [running]:..."
+	var id uint64
+	for i := len("goroutine "); i < n; i++ {
+		c := buf[i]
+		if c < '0' || c > '9' {
+			break
+		}
+		id = id*10 + uint64(c-'0')
+	}
+	return id
+}
+
+func verifPoint(f *Feed, point string, ch reflect.Value) {
+	if atomic.LoadInt32(&verifActive) == 0 {
+		return
+	}
+	v, ok := verifTraces.Load(f)
+	if !ok {
+		return
+	}
+	t := v.(*VerifTrace)
+	g := VerifGoid()
+	id := -1
+	if ch.IsValid() {
+		if ch.Kind() == reflect.Interface {
+			ch = ch.Elem()
+		}
+	}
+	t.mu.Lock()
+	if ch.IsValid() && ch.CanInterface() {
+		if i, ok := t.chans[ch.Interface()]; ok {
+			id = i
+		}
+	}
+	t.events = append(t.events, VerifEvent{g, point, id, 0})
+	r := t.next()
+	t.mu.Unlock()
+	t.pause(r)
+}
